@@ -5,6 +5,7 @@
   operations, delete_job, delete_jobs, get_jobs, jobs) from a fresh scheduler.
 -/
 import SchedVerif.Lemmas.Inv
+import SchedVerif.Lemmas.AsyncBudget
 namespace SV
 
 /-- state reached by a history from a fresh scheduler -/
@@ -120,5 +121,36 @@ theorem C06.once_budget (tz : Option Int) (sp : RawSpec) (clock : Int) (j : Job)
 example : (reach none 0 .linear
     [.sched { call := .cyclic, timings := [.td 10], isList := false, maxAtt := 2 } 100]).reg = [0] := by
   decide
+
+
+/-! ### the asyncio front end ("in both front ends") -/
+
+/-- **asyncio: never more runs than the budget** — after every history of the asyncio scheduler
+    (any jobs, coroutine scripts that sleep / raise / delete / schedule, deletions, passage of
+    virtual time) every job's attempt counter is within its limit -/
+theorem C06.aio_budget (tz : Option Int) (t0 : Int) (fuel : Nat) (ops : List AOp) (k : Nat) (t : ATask)
+    (ht : (arun fuel { tz := tz, now := t0 } ops).task? k = some t) (hp : 0 < t.job.maxAtt) :
+    (t.job.attempts : Int) ≤ t.job.maxAtt :=
+  ((BudInv.arun fuel ops _ (BudInv.init tz t0)).ok k t ht).budget hp
+
+/-- **asyncio: an exhausted job is never invoked again** — a supervisor that is waiting for its
+    job's due time, or whose coroutine is running, belongs to a job with attempts remaining; hence
+    once the n-th invocation has been counted the supervisor leaves its loop (`loopHead`) and no
+    further start can happen -/
+theorem C06.aio_live_has_attempts (tz : Option Int) (t0 : Int) (fuel : Nat) (ops : List AOp) (k : Nat) (t : ATask)
+    (ht : (arun fuel { tz := tz, now := t0 } ops).task? k = some t) (hl : isLive t.phase = true) :
+    t.job.hasAttempts = true :=
+  (BudInv.arun fuel ops _ (BudInv.init tz t0)).live k t ht (by simp) hl
+
+/-- … and the supervisor of an exhausted job retires it at its loop head: unregistered, finished -/
+theorem C06.aio_retires_when_exhausted (s : AState) (k : Nat) (t : ATask) (ht : s.task? k = some t)
+    (hc : t.pendingCancel = false) (ha : t.job.hasAttempts = false) :
+    (loopHead s k).reg = s.reg.erase k ∧
+    ∃ t', (loopHead s k).task? k = some t' ∧ t'.phase = .finished := by
+  unfold SV.loopHead
+  simp only [ht, hc, ha, Bool.false_eq_true, if_false, Bool.not_false, if_true, true_and]
+  have : (s.setTask k (fun t => { t with phase := Phase.finished })).task? k = some { t with phase := Phase.finished } := by
+    rw [AState.task?_setTask]; simp [ht]
+  exact ⟨_, this, rfl⟩
 
 end SV
